@@ -9,11 +9,15 @@ import (
 // walk is a seeded random scheduler over the same action alphabet as the
 // specification, with byte-level packet budgets (so truncation points are
 // not limited to the model's element budgets), larger clusters and longer
-// behaviours than the bounded model. When sf.Masked it avoids the two
-// schedules that are known findings on the pinned tree (F2, F4): it never
-// expires a view while a datagram is in flight towards the expiring node,
-// and never lets a node that holds a crashed/left peer gossip with a node
-// that already expired that peer.
+// behaviours than the bounded model. It mixes single steps (which leave
+// datagrams in flight, to be delivered late, twice, or never) with whole
+// push-pull rounds whose replies are cut at a random element, so that
+// observers are usually a few versions behind and catch up in pieces.
+//
+// When sf.Masked it avoids the two schedules that are known findings on the
+// pinned tree (F2, F4): it never expires a view while a datagram is in flight
+// towards (or a digest from) the expiring node, and never lets a node that
+// holds a crashed/left peer gossip with a node that already expired that peer.
 func walk(c *gsim.Cluster, sf *schedFile, rng *rand.Rand, emit func(*gsim.Step)) {
 	nodes := sf.Nodes
 	pick := func(xs []string) string { return xs[rng.Intn(len(xs))] }
@@ -27,83 +31,140 @@ func walk(c *gsim.Cluster, sf *schedFile, rng *rand.Rand, emit func(*gsim.Step))
 	for _, n := range nodes {
 		expired[n] = map[string]bool{}
 	}
+	membership := len(sf.Crash) > 0
+
+	write := func() {
+		n := pick(writers)
+		if sf.Routing {
+			if rng.Intn(3) > 0 {
+				emit(c.AddEndpoint(n, pick(sf.Endpoints)))
+			} else {
+				emit(c.RemoveEndpoint(n, pick(sf.Endpoints)))
+			}
+			return
+		}
+		if rng.Intn(3) == 0 {
+			emit(c.Delete(n, pick(sf.Keys)))
+		} else {
+			emit(c.Upsert(n, pick(sf.Keys), pick(sf.Vals)))
+		}
+	}
+	budget := func() (cut int, max int) {
+		switch rng.Intn(5) {
+		case 0:
+			return -1, 50 + rng.Intn(500)
+		case 1, 2:
+			return 1 + rng.Intn(5), 0
+		}
+		return -1, 0
+	}
+	deliver := func(slot int) {
+		m, ok := c.Slots[slot]
+		if !ok {
+			return
+		}
+		keep := rng.Intn(12) == 0
+		if m.T == "dig" {
+			if sf.Masked && f2risk(c, m.From, m.To, crashed, left, expired) {
+				emit(c.Lose(slot))
+				return
+			}
+			cut, max := budget()
+			emit(c.RecvDigest(slot, keep, cut, max, false))
+		} else {
+			emit(c.RecvDelta(slot, keep))
+		}
+	}
+	slotsOf := func() map[int]bool {
+		m := map[int]bool{}
+		for k := range c.Slots {
+			m[k] = true
+		}
+		return m
+	}
+	// a whole round a -> b; every datagram it produces is delivered, lost or left in flight
+	round := func(a, b string) {
+		if a == b || (sf.Masked && f2risk(c, a, b, crashed, left, expired)) {
+			return
+		}
+		before := slotsOf()
+		max := 0
+		if rng.Intn(6) == 0 {
+			max = 60 + rng.Intn(400)
+		}
+		emit(c.Round(a, b, max))
+		for hop := 0; hop < 3; hop++ {
+			var fresh []int
+			for k := range c.Slots {
+				if !before[k] {
+					fresh = append(fresh, k)
+				}
+			}
+			if len(fresh) == 0 {
+				return
+			}
+			for i := range fresh {
+				for j := i + 1; j < len(fresh); j++ {
+					if fresh[j] < fresh[i] {
+						fresh[i], fresh[j] = fresh[j], fresh[i]
+					}
+				}
+			}
+			for _, k := range fresh {
+				switch r := rng.Intn(10); {
+				case r < 7:
+					deliver(k)
+				case r < 8:
+					emit(c.Lose(k))
+				default:
+					before[k] = true // stays in flight, delivered by a later single step (reordering)
+				}
+			}
+		}
+	}
+
 	for step := 0; step < sf.Depth; step++ {
 		r := rng.Intn(100)
 		switch {
-		case r < 22:
-			n := pick(writers)
-			if sf.Routing {
-				if rng.Intn(3) > 0 {
-					emit(c.AddEndpoint(n, pick(sf.Endpoints)))
-				} else {
-					emit(c.RemoveEndpoint(n, pick(sf.Endpoints)))
-				}
-				continue
-			}
-			if rng.Intn(4) == 0 {
-				emit(c.Delete(n, pick(sf.Keys)))
-			} else {
-				emit(c.Upsert(n, pick(sf.Keys), pick(sf.Vals)))
+		case r < 18:
+			for i := 1 + rng.Intn(3); i > 0; i-- {
+				write()
 			}
 		case r < 26:
 			emit(c.Compact(pick(writers), 1))
 		case r < 28:
-			n := pick(writers)
-			if len(sf.Crash) > 0 {
+			if membership || rng.Intn(4) == 0 {
+				n := pick(writers)
 				emit(c.LeaveLocal(n))
 				left[n] = true
 			}
-		case r < 48:
+		case r < 58:
+			round(pick(nodes), pick(nodes))
+		case r < 64:
 			a, b := pick(nodes), pick(nodes)
 			if sf.Masked && f2risk(c, a, b, crashed, left, expired) {
 				continue
 			}
-			max := 0
-			if rng.Intn(3) == 0 {
-				max = 60 + rng.Intn(400)
+			emit(c.Round(a, b, 0))
+		case r < 78:
+			if slot := pickSlot(c, rng); slot != 0 {
+				deliver(slot)
 			}
-			emit(c.Round(a, b, max))
 		case r < 82:
-			slot := pickSlot(c, rng)
-			if slot == 0 {
-				continue
-			}
-			m := c.Slots[slot]
-			keep := rng.Intn(10) == 0
-			if m.T == "dig" {
-				if sf.Masked && f2risk(c, m.From, m.To, crashed, left, expired) {
-					emit(c.Lose(slot))
-					continue
-				}
-				max := 0
-				cut := -1
-				switch rng.Intn(4) {
-				case 0:
-					max = 50 + rng.Intn(500)
-				case 1:
-					cut = rng.Intn(6)
-				}
-				emit(c.RecvDigest(slot, keep, cut, max, false))
-			} else {
-				emit(c.RecvDelta(slot, keep))
-			}
-		case r < 88:
-			slot := pickSlot(c, rng)
-			if slot != 0 {
+			if slot := pickSlot(c, rng); slot != 0 {
 				emit(c.Lose(slot))
 			}
-		case r < 92:
-			if len(sf.Crash) == 0 {
+		case r < 88:
+			if !membership {
 				continue
 			}
 			o, n := pick(nodes), pick(nodes)
-			// only nodes that are really gone get suspected for good; a live
-			// node may be suspected and recover
+			// a node that is really gone stays suspected; a live node may be suspected and recover
 			emit(c.Suspect(o, n, rng.Intn(2) == 0 || crashed[n]))
-		case r < 95:
+		case r < 93:
 			emit(c.Liveness(pick(nodes)))
-		case r < 98:
-			if len(sf.Crash) == 0 {
+		case r < 97:
+			if !membership {
 				continue
 			}
 			o := pick(nodes)
@@ -118,7 +179,7 @@ func walk(c *gsim.Cluster, sf *schedFile, rng *rand.Rand, emit func(*gsim.Step))
 			}
 			emit(s)
 		default:
-			if len(sf.Crash) > 0 && rng.Intn(3) == 0 {
+			if membership && rng.Intn(3) == 0 {
 				n := pick(sf.Crash)
 				if !crashed[n] {
 					crashed[n] = true
